@@ -13,6 +13,7 @@ EXPLANATION = (
     "It does NOT decide accessor totality on parsed values (index sites driven by stored offsets are UNDECIDED) "
     "nor UTF-8 validity of unescaped output.")
 EXPLANATION += ' Also decided: raw block copies (ptr::copy_nonoverlapping and friends) stay inside the slice their destination pointer was taken from; a length test that compares the same quantities as an open bound with a smaller constant is reported as a violation with the size of the window.'
+EXPLANATION += ' Also decided: read_tags_array proves the offset slot of every tag inside the table sized by its counting pass and returns Ok only when the tags read equal the tags counted.'
 ASSUMPTIONS = ["A1: usize cursor/size arithmetic does not overflow (lengths <= isize::MAX)"]
 
 ENTRY = [
